@@ -403,3 +403,39 @@ Proof.
 Qed.
 
 End Ctors.
+
+(* ------------------------------------------------------------------ csolve *)
+From RL Require Import Model.Spline Model.Linalg.
+Section CSolveP.
+Context {T : Type} `{Num T} {X : Type} {OX : Ops X} (xmul : T -> X -> X).
+
+(* the two validations return an error (never abort), whatever the spline *)
+Lemma csolve_rejects (s : pp T X) tau y ln rn lsq :
+  (length tau <> pp_n s /\ (lsq = false \/ (length tau <= pp_n s)%nat)) \/ length tau <> length y ->
+  csolve xmul s tau y ln rn lsq = Err.
+Proof.
+  unfold csolve. intros [[A B]|A].
+  - assert (E1 : Nat.eqb (length tau) (pp_n s) = false) by (apply Nat.eqb_neq; auto).
+    rewrite E1. cbn [negb andb].
+    assert (E2 : (lsq && Nat.ltb (pp_n s) (length tau))%bool = false).
+    { destruct B as [->|B]; [reflexivity|]. destruct lsq; [|reflexivity]. cbn [andb]. apply Nat.ltb_ge. exact B. }
+    rewrite E2. reflexivity.
+  - destruct (negb (Nat.eqb (length tau) (pp_n s)) && negb (lsq && Nat.ltb (pp_n s) (length tau)))%bool; [reflexivity|].
+    assert (E1 : Nat.eqb (length tau) (length y) = false) by (apply Nat.eqb_neq; auto).
+    rewrite E1. reflexivity.
+Qed.
+(* a returned spline keeps order, knots and n, and carries coefficients *)
+Lemma csolve_ok (s s' : pp T X) tau y ln rn lsq : csolve xmul s tau y ln rn lsq = Ok s' ->
+  pp_k s' = pp_k s /\ pp_t s' = pp_t s /\ pp_n s' = pp_n s /\ exists c, pp_c s' = Some c.
+Proof.
+  unfold csolve.
+  destruct (negb (Nat.eqb (length tau) (pp_n s)) && negb (lsq && Nat.ltb (pp_n s) (length tau)))%bool; [discriminate|].
+  destruct (negb (Nat.eqb (length tau) (length y))); [discriminate|].
+  destruct (bsplmatrix (pp_k s) (pp_t s) (pp_n s) tau ln rn) as [b| |]; cbn [obind]; try discriminate.
+  destruct (pp_n s) eqn:N.
+  - intros [= <-]. cbn. eauto.
+  - destruct (fdsolve xmul b y lsq) as [c| |]; cbn [obind]; try discriminate.
+    intros [= <-]. cbn. eauto.
+Qed.
+End CSolveP.
+
